@@ -387,12 +387,27 @@ func (w *world) tmClientFor(o *xchain) (*xibctmtypes.ClientState, *xibctmtypes.C
 		tp = 14 * 24 * time.Hour
 	}
 	cs := xibctmtypes.NewClientState(o.Cfg.ChainID, xibctmtypes.DefaultTrustLevel, tp, tp+7*24*time.Hour, 10*time.Second,
-		h, commitmenttypes.GetSDKSpecs(), commitmenttypes.MerklePrefix{KeyPrefix: []byte("xibc")}, uint64(w.cfg["delay_s"]))
+		h, commitmenttypes.GetSDKSpecs(), commitmenttypes.MerklePrefix{KeyPrefix: []byte("xibc")}, uint64(w.cfg["delay_s"])*uint64(time.Second))
 	hdr := o.SignedHeader(o.Height, nil)
 	return cs, hdr.ConsensusState()
 }
 
 var _ = packettypes.ModuleAddress
+
+// proofDelay is the configured confirmation delay (ns) of c's Tendermint client for chain src; 0 while
+// governance has put another client type in its place.
+func (w *world) proofDelay(c, src *xchain) uint64 {
+	if k := c.clientKind[src.idx]; k != "" && k != "tm" {
+		return 0
+	}
+	return uint64(w.cfg["delay_s"]) * uint64(time.Second)
+}
+
+// processedAt reads the time (ns) at which c's Tendermint client for src processed the given height.
+func (w *world) processedAt(c, src *xchain, h uint64) (uint64, bool) {
+	store := c.App.XIBCKeeper.ClientKeeper.ClientStore(c.ReadCtx(), src.Cfg.Name)
+	return xibctmtypes.GetProcessedTime(store, clienttypes.NewHeight(src.Revision(), h))
+}
 
 // DebugWorld builds a world and returns its chains (debugging aid).
 func DebugWorld(cfg map[string]int64, rec *kernel.Rec) []*node.Chain {
